@@ -131,6 +131,17 @@ def check(run, model, tier):
                 if attr == lock:
                     continue
                 if attr in cls.methods:
+                    # a helper that *stores* (into the instance's storage or into the descriptor) is a write of shared state at the depth of its call site
+                    hm = cls.methods[attr]
+                    hstores = [y for y in ast.walk(hm.node) if (isinstance(y, (ast.Subscript, ast.Attribute)) and isinstance(y.ctx, (ast.Store, ast.Del)))
+                               or (isinstance(y, ast.Call) and isinstance(y.func, ast.Attribute) and y.func.attr in ('setdefault', 'update', 'pop', 'popitem', 'clear', '__setitem__', 'append'))
+                               or (isinstance(y, ast.Call) and isinstance(y.func, ast.Name) and y.func.id in ('setattr', 'delattr'))]
+                    if hstores and isinstance(x.ctx, ast.Load):
+                        held_here = bool(states[n]) and min(states[n]) >= 1
+                        run.inst('LOCKSET.value-access', f, 'helper %s() stores shared state: called with the lock held' % attr, held_here,
+                                 '' if held_here else ('%s calls %s() on a path where the lock is not held (it has been given back, or was never taken), and %s() stores (%s): a check-then-store '
+                                                       'outside the critical section - an assignment or update that another thread completes in between is overwritten, which no serial order '
+                                                       'of the statements produces' % (f.qualname, attr, attr, norm(hstores[0]))), node=x, obligation=True)
                     # a helper of the descriptor that reads the stored value (anything but the source-line classifiers) is a value access
                     classifiers = {c_.func.attr for t_ in g.nodes if t_.kind == 'test' for c_ in t_.calls() if isinstance(c_.func, ast.Attribute) and dotted(c_.func.value) == selfn}
                     if f is get and attr not in classifiers:
@@ -163,7 +174,13 @@ def check(run, model, tier):
                                                   'in that gap has its "continuing" mark erased, its __set__ then takes the lock a second time and releases it once - the attribute\'s lock '
                                                   'stays held and every later access from another thread blocks for good'), node=x, obligation=True)
                     continue
-                # the stored value (or the key/initial value used to reach it)
+                # attributes bound once in __init__ and never again (the storage key, the initial value) are configuration, not shared mutable state
+                rebinders = [m_ for m_ in cls.methods.values() if m_.name != '__init__' and
+                             any(isinstance(y, ast.Attribute) and y.attr == attr and isinstance(y.ctx, (ast.Store, ast.Del)) and isinstance(y.value, ast.Name) and y.value.id == m_.params[0]
+                                 for y in ast.walk(m_.node))]
+                if not rebinders and isinstance(x.ctx, ast.Load) and not any(isinstance(p_, ast.Subscript) and p_.value is x and isinstance(p_.ctx, ast.Store) for p_ in n.walk()):
+                    continue
+                # the stored value
                 if f is get:
                     # a reader must have waited for an in-flight augmented assignment: the acquire dominates the access
                     # (a single attribute load after the release on the atomic path is still a serialisable read)
